@@ -35,6 +35,7 @@ def check_sequence(case):
     jumped = False
     lastT = None
     warm = False           # a driving-force query with the cache retained has been made since the last clear: later ones are warm-started
+    shared = None
     try:
         W.clearCache()
         for k, op in enumerate(case["ops"]):
@@ -54,6 +55,14 @@ def check_sequence(case):
                 out.label("tiny_temperature_change")
             lastT = T[-1]
             xarg = (x[:, 0].copy() if n > 1 else float(x[0, 0])) if cfg["binary"] else (x.copy() if n > 1 else x[0].copy())
+            if case.get("shared_buffer") and not cfg["binary"] and n == 1:
+                # the caller keeps one composition array and updates it in place between queries (a loop over nodes or alloys): an
+                # answer must belong to the values the array holds at the time of the call
+                if shared is None:
+                    shared = np.zeros(x.shape[1])
+                shared[:] = x[0]
+                xarg = shared
+                out.label("caller_buffer_updated_in_place")
             Targ = T.copy() if n > 1 else float(T[0])
             keep = [np.array(xarg).copy(), np.array(Targ).copy()]
 
@@ -129,10 +138,18 @@ def check_sequence(case):
             elif kind == "icm" and not cfg["binary"]:
                 # multicomponent interfacial composition: an array of Gibbs-Thomson energies vs one call per energy on the cache-free object
                 g = np.array(op["g"], dtype=float)
+                if op.get("g_int"):
+                    # the same energies handed over as integers (a list of ints; the documented default is the integer 0): the
+                    # temperature, which is not a whole number, must not be affected by the dtype of another argument
+                    g = np.round(g)
+                    g_arg = [int(v) for v in g]
+                    out.label("icm_integer_energies")
+                else:
+                    g_arg = g
                 g0 = g.copy()
                 xi = x[0].copy()
-                ca, cb = W.getInterfacialComposition(xi, float(T[0]), g, precPhase=ph)
-                ca2, cb2 = W.getInterfacialComposition(xi, float(T[0]), g, precPhase=ph)
+                ca, cb = W.getInterfacialComposition(xi, float(T[0]), g_arg, precPhase=ph)
+                ca2, cb2 = W.getInterfacialComposition(xi, float(T[0]), g_arg, precPhase=ph)
                 if g.tobytes() != g0.tobytes() or xi.tobytes() != x[0].tobytes():
                     out.fail("argument_modified", "op %d getInterfacialComposition (multicomponent) modified its arguments" % k)
                 ca, cb, ca2 = np.atleast_2d(np.asarray(ca, dtype=float)), np.atleast_2d(np.asarray(cb, dtype=float)), np.atleast_2d(np.asarray(ca2, dtype=float))
@@ -227,6 +244,9 @@ def _seq(draw):
         op = {"kind": kind, "x": xs, "T": Ts, "phase": draw(st.integers(0, 4)), "removeCache": draw(st.booleans())}
         if kind in ("ic", "icm"):
             op["g"] = sorted(10 ** draw(st.floats(0, 4.3)) for _ in range(draw(st.integers(1, 5))))
+            if kind == "icm" and draw(st.integers(0, 2)) == 2:
+                op["g_int"] = True
+                op["T"] = [float(np.floor(op["T"][0]) + draw(st.sampled_from([0.15, 0.5, 0.85])))]
             if kind == "ic" and draw(st.booleans()):
                 Tset = [float(np.clip(T0 + d, cfg["T"][0], cfg["T"][1])) for d in (0.0, draw(st.sampled_from([50.0, -40.0, 7.0])), draw(st.sampled_from([-15.0, 90.0])))]
                 pat = draw(st.sampled_from([[0, 1, 0], [0, 0, 1], [1, 0], [0, 1, 2, 0], [2, 1, 0], [0, 1], [0, 1, 1, 0]]))
@@ -260,7 +280,10 @@ def _seq(draw):
             ops.append(op2)
         if draw(st.booleans()):          # repeat of an earlier query later in the sequence
             ops.append(dict(op))
-    return {"system": name, "ops": ops}
+    case = {"system": name, "ops": ops}
+    if not cfg["binary"] and draw(st.integers(0, 2)) == 2:
+        case["shared_buffer"] = True
+    return case
 
 
 GEN = {
